@@ -141,6 +141,41 @@ theorem parse_located (hT : T.WF) (e : RExpr) (hwf : RExpr.WF T e) (ts : List PT
   | err e s' => rw [hp] at this; simp [PRes.strip] at this
   | fuel => rw [hp] at this; simp [PRes.strip] at this
 
+/-! ### a negated operand after any binary operator -/
+
+theorem spec_binary_le6 : ∀ e ∈ specTables.binary, e.1 ≠ .single '.' → e.2 ≤ 6 := by decide
+
+theorem spec_bop_range {o : BOp} (h : ∀ s, o = .sym s → s ≠ .single '.' ∧ (lookupOp specTables.binary s).isSome) :
+    0 ≤ tokPrec specTables o.tok ∧ tokPrec specTables o.tok ≤ 6 := by
+  refine ⟨(bop_range spec_wf h).1, ?_⟩
+  cases o with
+  | sym s =>
+    obtain ⟨hne, hs⟩ := h s rfl
+    cases hl : lookupOp specTables.binary s with
+    | none => rw [hl] at hs; cases hs
+    | some p =>
+      have := spec_binary_le6 _ (lookupOp_mem hl) hne
+      simp only [BOp.tok, tokPrec, hl, Option.getD_some]
+      exact this
+  | is => decide
+  | isNot => decide
+  | and => decide
+  | or => decide
+
+/-- under the reference grammar a negated right operand never needs parentheses, whatever the binary operator -/
+theorem minimal_neg_operand (o : BOp) (l r : RExpr)
+    (h : ∀ s, o = .sym s → s ≠ .single '.' ∧ (lookupOp specTables.binary s).isSome) :
+    RExpr.minimal (.bin o l (.neg r)) =
+      RExpr.pr specTables (tokPrec specTables o.tok) l ++ [o.tok, .op (.single '-')] ++
+        RExpr.pr specTables (RExpr.prefixCtx negLevel r) r := by
+  obtain ⟨h0, h6⟩ := spec_bop_range h
+  have a : ¬ tokPrec specTables o.tok < 0 := by omega
+  have b : ¬ negLevel < tokPrec specTables o.tok + 1 := by simp only [negLevel]; omega
+  unfold RExpr.minimal
+  rw [RExpr.pr, RExpr.pr]
+  simp only [a, b, decide_false, RExpr.wrap, Bool.false_eq_true, if_false, List.append_assoc, List.cons_append,
+    List.nil_append]
+
 /-! ### helpers for the instances of the sentence -/
 
 /-- a plain column of the reference grammar -/
